@@ -1049,7 +1049,11 @@ func (fr *Frame) tryVal(v ssa.Value) (t Term, ok bool) {
 
 func debugRefName(dr *ssa.DebugRef) string {
 	if obj := dr.Object(); obj != nil {
-		return obj.Name()
+		// only local variables and parameters: a field selector x.f also yields a debug ref
+		// for the identifier f, which must not shadow a local of the same name
+		if v, ok := obj.(*types.Var); ok && !v.IsField() {
+			return obj.Name()
+		}
 	}
 	return ""
 }
